@@ -1299,7 +1299,9 @@ def hist_alphabet(tc, shape, which):
     n = r * k
     operands = {
         'num-i': 2, 'num-d': 0.5, 'num-z': 1j,
-        'm11-i': R.Dense('i', (1, 1), [3]), 'm11-d': R.Dense('d', (1, 1), [1.5]), 'm11-z': R.Dense('z', (1, 1), [2j]),
+        # scalars are powers of two (times a unit): every *=, /=, %= step is then exact in binary floating point,
+        # so rounding differences (x/c versus x*(1/c)) cannot be amplified by the discontinuity of a later %=
+        'm11-i': R.Dense('i', (1, 1), [4]), 'm11-d': R.Dense('d', (1, 1), [0.25]), 'm11-z': R.Dense('z', (1, 1), [2j]),
         'mat-i': R.Dense('i', shape, [j + 1 for j in range(n)]),
         'mat-d': R.Dense('d', shape, [j + 0.5 for j in range(n)]),
         'mat-z': R.Dense('z', shape, [complex(1, j) for j in range(n)]),
